@@ -6,6 +6,7 @@ import random
 
 from .. import checks, gen
 from ..monitors import IdMonitor
+from . import c06 as _c06
 from . import common
 
 PROP = "C05"
@@ -34,7 +35,7 @@ def cfg_fn(rng):
     return cfg
 
 
-WEIGHTS = {"scenario": 0.6, "update_attrs": 0.2, "add_edge": 5, "delete_edge": 4, "delete_node": 4}
+WEIGHTS = {"ctrl": 0.8, "scenario": 0.6, "update_attrs": 0.2, "add_edge": 5, "delete_edge": 4, "delete_node": 4}
 
 
 def plan(tier, seed):
@@ -48,7 +49,8 @@ def run_shard(spec):
     if spec["kind"] == "construct":
         return construct_shard(spec, WHICH, PROP)
     return common.run_sessions(spec, PROP, make_monitors, cfg_fn, nsteps=(15, 35),
-                               weights=WEIGHTS, refusal_rate=0.4, history_share=0.25)
+                               weights=WEIGHTS, refusal_rate=0.4, history_share=0.25,
+                               tail=_c06.TAIL, tail_share=0.3)
 
 
 def construct_shard(spec, which, prop):
